@@ -1465,7 +1465,254 @@ async def nested_tree_publications_release_waiters():
     return ok, f"error={err}, got={ {k: type(v).__name__ for k, v in got.items()} }"
 
 
-SCENARIOS = {f.__name__: f for f in (factories_waiting_on_each_other_complete, nested_tree_publications_release_waiters, timeout_watches_every_tree, every_registration_of_a_component_is_torn_down, generic_alias_types_are_found_by_every_lookup, optional_injection_is_the_optional_lookup, start_value_and_failed_starts, hard_coded_kwargs_reach_the_child_as_they_are,
+async def left_from_another_task_is_closed_all_the_same():
+    """C13: after the block has been left the context is closed WHATEVER went wrong on the way out: a child (with and
+    without teardown callbacks) entered in one task and left from another -- restoring the current context fails
+    there -- is closed afterwards: every guarded operation is refused, and its parent can be left without a report
+    of an open child"""
+    out = {}
+    for label, with_cb in (("plain", False), ("with-callback", True)):
+        parent_report = None
+        try:
+            async with Context():
+                child = Context()
+                entered, leave = anyio.Event(), anyio.Event()
+
+                async def enters():
+                    await child.__aenter__()
+                    if with_cb:
+                        child.add_teardown_callback(lambda: None)
+                    entered.set()
+                    await leave.wait()
+                async with anyio.create_task_group() as tg:
+                    tg.start_soon(enters)
+                    await entered.wait()
+                    try:
+                        await child.__aexit__(None, None, None)
+                        how = "left"
+                    except BaseException as e:  # noqa
+                        how = type(e).__name__
+                    refused = []
+                    for name, call in (("add_resource", lambda: child.add_resource(1)),
+                                       ("add_teardown_callback", lambda: child.add_teardown_callback(lambda: None)),
+                                       ("get_resource_nowait", lambda: child.get_resource_nowait(int, optional=True))):
+                        try:
+                            call()
+                            refused.append(name + ":accepted")
+                        except RuntimeError:
+                            pass
+                        except BaseException as e:  # noqa
+                            refused.append(name + ":" + type(e).__name__)
+                    try:
+                        await child.__aenter__()
+                        refused.append("re-entry:accepted")
+                    except RuntimeError:
+                        pass
+                    out[label] = {"closed": child.closed, "not_refused": refused, "how": how}
+                    leave.set()
+        except BaseException as e:  # noqa
+            parent_report = f"{type(e).__name__}: {str(e)[:80]}"
+        out.setdefault(label, {"closed": None, "not_refused": ["scenario did not get that far"]})["parent"] = parent_report
+    ok = all(v["closed"] is True and not v["not_refused"] and v["parent"] is None for v in out.values())
+    return ok, f"{out}"
+
+
+async def refused_entry_changes_nothing():
+    """C12 (and C13): an attempt to enter a context that is already open is refused -- every time -- and changes
+    nothing: the context stays current while its block runs, and leaving the block restores what was current
+    before, for the owner and for the tasks it spawned"""
+    out = {}
+    async with Context() as outer:
+        async with Context() as ctx:
+            attempts = []
+            for _ in range(3):
+                try:
+                    await ctx.__aenter__()
+                    attempts.append("accepted")
+                except RuntimeError:
+                    attempts.append("refused")
+            out["attempts"] = attempts
+            out["current_inside"] = current_context() is ctx
+
+            async def worker():
+                try:
+                    async with ctx:
+                        return "accepted"
+                except RuntimeError:
+                    return "refused"
+            async with anyio.create_task_group() as tg:
+                res = []
+
+                async def run_worker():
+                    res.append(await worker())
+                tg.start_soon(run_worker)
+                tg.start_soon(run_worker)
+            out["workers"] = res
+            out["still_current"] = current_context() is ctx
+        out["closed"] = ctx.closed
+        out["restored"] = current_context() is outer
+    want = {"attempts": ["refused"] * 3, "current_inside": True, "workers": ["refused"] * 2, "still_current": True,
+            "closed": True, "restored": True}
+    return out == want, f"{out}"
+
+
+async def parent_is_the_current_context_itself():
+    """C12: a newly created context takes the context CURRENT AT ITS CREATION as its parent -- that very object, also
+    when an application's Context subclass compares (and hashes) by value and an equal, already closed, instance was
+    current when an earlier context was created"""
+    class RequestContext(Context):
+        def __init__(self, request_id):
+            super().__init__()
+            self.request_id = request_id
+
+        def __eq__(self, other):
+            return isinstance(other, RequestContext) and other.request_id == self.request_id
+
+        def __hash__(self):
+            return hash(self.request_id)
+    out = {}
+    async with Context():
+        first = RequestContext(7)
+        async with first:
+            async with Context() as inner1:
+                out["first"] = inner1.parent is first
+        retry = RequestContext(7)              # the request is retried: an equal context, a different object
+        async with retry:
+            async with Context() as inner2:
+                out["retry"] = inner2.parent is retry
+                out["not_the_closed_one"] = inner2.parent is not first and not inner2.parent.closed
+
+            async def in_task():
+                async with Context() as inner3:
+                    out["task"] = inner3.parent is retry
+            async with anyio.create_task_group() as tg:
+                tg.start_soon(in_task)
+    bad = sorted(k for k, v in out.items() if not v)
+    return not bad and len(out) == 4, f"{out}"
+
+
+async def default_name_is_remapped_only_while_starting():
+    """C14: "default" becomes the `/name` suffix of the alias only for what a component adds IN its start(): what it
+    adds through the same view of the context in prepare(), or after its start() has returned (called by its parent's
+    start(), or after start_component() has returned), is published under "default"; explicit names never change"""
+    from asphalt.core import Component, get_resources, start_component
+
+    class Res:
+        def __init__(self, label):
+            self.label = label
+
+        def __repr__(self):
+            return self.label
+
+    reg = {}
+
+    class Child(Component):
+        def __init__(self):
+            reg["child"] = self
+
+        async def prepare(self):
+            self.view = current_context()
+            self.view.add_resource(Res("prepare"), types=[A])
+
+        async def start(self):
+            self.view = current_context()
+            self.view.add_resource(Res("start"), types=[B])
+            self.view.add_resource(Res("explicit"), "explicit", types=[B])
+
+        def publish_later(self, ty, fty):
+            self.view.add_resource(Res("later"), types=[ty])
+            self.view.add_resource_factory(lambda: Res("later-factory"), types=[fty])
+
+    class TL1:
+        pass
+
+    class TL2:
+        pass
+
+    class TF1:
+        pass
+
+    class TF2:
+        pass
+
+    class Root(Component):
+        def __init__(self):
+            self.add_component("kind/alt", Child)
+
+        async def start(self):
+            reg["child"].publish_later(TL1, TF1)
+    names = {}
+    async with Context() as ctx:
+        await start_component(Root)
+        reg["child"].publish_later(TL2, TF2)
+        names = {"prepare": sorted(get_resources(A)), "start": sorted(get_resources(B)),
+                 "parent_start": sorted(get_resources(TL1)), "afterwards": sorted(get_resources(TL2)),
+                 "factory_parent_start": ctx.get_resource_nowait(TF1, "default", optional=True) is not None,
+                 "factory_afterwards": ctx.get_resource_nowait(TF2, "default", optional=True) is not None}
+    want = {"prepare": ["default"], "start": ["alt", "explicit"], "parent_start": ["default"], "afterwards": ["default"],
+            "factory_parent_start": True, "factory_afterwards": True}
+    return names == want, f"{names} (expected {want})"
+
+
+async def annotations_mean_what_they_say():
+    """C19: an injected parameter is bound to get_resource(T, name) for the T its annotation NAMES -- also when the
+    annotation is a forward reference to a class defined only after the decoration (resolved at the first call), and
+    when T is a generic alias that merely has None among its arguments (Callable[..., None] is not Optional)"""
+    import typing
+    from asphalt.core import ResourceNotFound
+    out = {}
+
+    class Outer:
+        @inject
+        async def use(self, *, dep: Dep = resource()):        # noqa: F821  (a string: `from __future__ import annotations`)
+            return dep
+
+        @inject
+        def use_sync(self, *, dep: Dep = resource("named")):  # noqa: F821
+            return dep
+
+        class Dep:
+            pass
+    CB = typing.Callable[..., None]
+
+    @inject
+    async def notify(*, cb: typing.Callable[..., None] = resource()):
+        return cb
+
+    @inject
+    def notify_sync(*, cb: typing.Callable[..., None] = resource()):
+        return cb
+
+    def callback(*args):
+        return None
+    async with Context() as ctx:
+        for label, call in (("missing", notify), ("missing_sync", notify_sync)):
+            try:
+                r = call()
+                r = await r if hasattr(r, "__await__") else r
+                out[label] = f"returned {r!r}"
+            except ResourceNotFound:
+                out[label] = "ResourceNotFound"
+            except BaseException as e:  # noqa
+                out[label] = type(e).__name__
+        d1, d2 = Outer.Dep(), Outer.Dep()
+        ctx.add_resource(d1)
+        ctx.add_resource(d2, "named")
+        ctx.add_resource(callback, types=[CB])
+        ctx.add_resource("a string")
+        try:
+            out["forward"] = (await Outer().use()) is d1
+            out["forward_sync"] = Outer().use_sync() is d2
+            out["callable"] = (await notify()) is callback
+            out["callable_sync"] = notify_sync() is callback
+        except BaseException as e:  # noqa
+            out["error"] = f"{type(e).__name__}: {str(e)[:80]}"
+    want = {"missing": "ResourceNotFound", "missing_sync": "ResourceNotFound", "forward": True, "forward_sync": True,
+            "callable": True, "callable_sync": True}
+    return out == want, f"{out}"
+
+
+SCENARIOS = {f.__name__: f for f in (annotations_mean_what_they_say, default_name_is_remapped_only_while_starting, parent_is_the_current_context_itself, refused_entry_changes_nothing, left_from_another_task_is_closed_all_the_same, factories_waiting_on_each_other_complete, nested_tree_publications_release_waiters, timeout_watches_every_tree, every_registration_of_a_component_is_torn_down, generic_alias_types_are_found_by_every_lookup, optional_injection_is_the_optional_lookup, start_value_and_failed_starts, hard_coded_kwargs_reach_the_child_as_they_are,
                                      overriding_signal_has_its_own_event_class, second_half_runs_at_the_outer_teardown, rejected_add_registers_no_callback,
                                      wait_finished_means_completely_finished, dead_iterator_inside_its_block_disturbs_nobody,
                                      racing_lookups_generate_once, failing_factory_leaves_the_current_context_alone,
